@@ -1,16 +1,24 @@
 ------------------------------- MODULE ByteOrderMC -------------------------------
-(* Exhaustive small-scope model of byte-order conversion chains.                    *)
+(* Exhaustive small-scope model of byte-order conversion histories.                 *)
 (*  - ChooseKinds / ChooseSpell / ChooseLayout enumerate every abstract array of the *)
 (*    bounded space (plain or structured, every sequence of field kinds incl. nested *)
-(*    records, every order spelling, every memory layout);                           *)
+(*    records, every order spelling, every memory layout, every writeability);       *)
 (*  - ToNative / ToBig / ToLittle / Swap (x inplace x keep_dtype) and                *)
-(*    RecfileNativeInplace extend a chain: each conversion is applied to the result  *)
-(*    of the previous one, so buffers may or may not be shared (aliasing);           *)
-(*  - every behaviour of length MaxDepth is exported and replayed on real arrays;    *)
+(*    RecfileNativeInplace extend a history: each conversion is applied to the       *)
+(*    current array (the result of the previous one), so buffers may or may not be   *)
+(*    shared (aliasing);  Reject is the same call refused because it would have to    *)
+(*    swap a non-writable array in place - a stutter step on every array;            *)
+(*  - Fresh / MutNames / MutShape / MutLock are steps of the CALLER between           *)
+(*    conversions: build another table of the same dtype, rename the fields of the   *)
+(*    current array in place, change its shape, lock it.  dtype OBJECTS are modelled  *)
+(*    (dtos): numpy lets an array, its views and its copies share one, a really       *)
+(*    swapped result gets a new one - so a rename shows on relatives only;            *)
+(*  - every behaviour of length MaxDepth is exported (model checking or -simulate)   *)
+(*    and replayed on real arrays;                                                   *)
 (*  - the theorems below are checked on every behaviour, and MechRefines checks the  *)
 (*    implementation-shaped step (swap decision, ndarray.byteswap, dtype assignment:  *)
-(*    result, object identity, dtype left on the argument) against the property-level *)
-(*    conversion, for every layout.                                                   *)
+(*    result, object identity, dtype left on the argument, refusal) against the       *)
+(*    property-level conversion, for every layout.                                    *)
 EXTENDS ByteOrder, Json
 
 CONSTANTS MinFields, MaxFields,   \* structured arrays of MinFields..MaxFields fields
@@ -19,120 +27,204 @@ CONSTANTS MinFields, MaxFields,   \* structured arrays of MinFields..MaxFields f
           Need,                   \* kinds that must occur among the fields (subset of Kinds; {} = no restriction)
           Spells,                 \* order characters the initial dtype is spelled with
           Layouts,                \* memory layouts of the initial array (subset of BOLayouts)
-          InplaceFirst,           \* TRUE: only chains whose steps before the last are in place (the
+          Writes,                 \* writeability of the initial array (subset of BOWrites)
+          Fns,                    \* conversions used (subset of BOFns)
+          CallerOps,              \* caller steps used (subset of BOCallerFns)
+          InplaceFirst,           \* TRUE: only histories whose conversions before the last step are in place (the
                                   \*       current array stays the initial window; thins deep runs)
-          MaxDepth,               \* chain length
+          MaxDepth,               \* history length
           FixedDetect,            \* mechanism variants, see ByteOrder.tla
           NestedDetect,
           RetypeAlways,
+          SwapFirst,
+          CacheDtype,             \* TRUE: a deviating MODEL variant in which the swapped dtype object is memoised
+                                  \*       per source dtype (self-test: lineages then share dtype objects)
           DoExport
 
-VARIABLES phase, init, ops, snaps, arrs, bufs, cur
-vars == <<phase, init, ops, snaps, arrs, bufs, cur>>
+VARIABLES phase, init, ops, snaps, arrs, bufs, dtos, cur
+vars == <<phase, init, ops, snaps, arrs, bufs, dtos, cur>>
 
-\* arrs : Seq([decl : Seq(order), buf : index into bufs, lay : layout]) - every array object created so far
+\* arrs : Seq([decl, buf : index into bufs, lay : layout, lin : lineage, dto : index into dtos, w : writable, shp])
 \* bufs : Seq(Seq(order))  - physical order of each field in each buffer
+\* dtos : Seq([names : "orig" | "ren", key])  - dtype objects: their field names; key = the source dtype a
+\*        memoising variant would have filed it under
 \* cur  : the current array (argument of the next conversion)
 \* snaps: the observable state after each step (snaps[1] = initial), ops: the steps taken
 
-NoInit == [plain |-> FALSE, kinds |-> <<>>, spell |-> "=", layout |-> "contig"]
+NoInit == [plain |-> FALSE, kinds |-> <<>>, spell |-> "=", layout |-> "contig", wr |-> "w"]
+NoKey == <<>>
 
 Init == /\ phase = "start" /\ init = NoInit /\ ops = <<>> /\ snaps = <<>>
-        /\ arrs = <<>> /\ bufs = <<>> /\ cur = 0
+        /\ arrs = <<>> /\ bufs = <<>> /\ dtos = <<>> /\ cur = 0
 
-SnapOf(A, B, c) ==
-    [res |-> c, err |-> "none", rest |-> "intact",     \* no conversion ever writes outside its array
+SnapOf(A, B, D, c, e) ==
+    [res |-> c, err |-> e, rest |-> "intact",     \* no conversion ever writes outside its array
      arrs |-> [j \in 1..Len(A) |->
-                 [decl |-> A[j].decl, phys |-> B[A[j].buf], sig |-> "s", shp |-> "h",
+                 [decl |-> A[j].decl, phys |-> B[A[j].buf], sig |-> D[A[j].dto].names, shp |-> A[j].shp,
                   grp |-> VSetMin({i \in 1..Len(A) : A[i].buf = A[j].buf}),
-                  hash |-> B[A[j].buf]]]]          \* raw bytes are a function of the physical orders
+                  hash |-> B[A[j].buf],            \* raw bytes are a function of the physical orders
+                  w |-> A[j].w, lin |-> A[j].lin]]]
 
 ChooseKinds ==
     /\ phase = "start"
     /\ \E n \in MinFields..MaxFields : \E ks \in [1..n -> Kinds] :
        \E pl \in (IF n = 1 /\ WithPlain /\ ks[1] # "N" THEN BOOLEAN ELSE {FALSE}) :
           /\ Need \subseteq {ks[i] : i \in 1..n}
-          /\ init' = [plain |-> pl, kinds |-> ks, spell |-> "=", layout |-> "contig"]
-    /\ phase' = "kinds" /\ UNCHANGED <<ops, snaps, arrs, bufs, cur>>
+          /\ init' = [NoInit EXCEPT !.plain = pl, !.kinds = ks]
+    /\ phase' = "kinds" /\ UNCHANGED <<ops, snaps, arrs, bufs, dtos, cur>>
 
 ChooseSpell ==
     /\ phase = "kinds"
     /\ \E sp \in Spells : init' = [init EXCEPT !.spell = sp]
-    /\ phase' = "spell" /\ UNCHANGED <<ops, snaps, arrs, bufs, cur>>
+    /\ phase' = "spell" /\ UNCHANGED <<ops, snaps, arrs, bufs, dtos, cur>>
+
+InitDecl == [i \in DOMAIN init.kinds |-> BODeclOf(init.kinds[i], init.spell)]
+Table(l, wr, b, d, lin) == [decl |-> InitDecl, buf |-> b, lay |-> l, lin |-> lin, dto |-> d, w |-> (wr = "w"), shp |-> "h"]
+OrigDto == [names |-> "orig", key |-> NoKey]
 
 ChooseLayout ==
     /\ phase = "spell"
-    /\ \E l \in Layouts :
-         LET d == [i \in DOMAIN init.kinds |-> BODeclOf(init.kinds[i], init.spell)]
-             A == <<[decl |-> d, buf |-> 1, lay |-> l]>>
-             B == <<d>>                              \* the initial array holds its logical values
-         IN /\ init' = [init EXCEPT !.layout = l]
-            /\ arrs' = A /\ bufs' = B /\ cur' = 1 /\ snaps' = <<SnapOf(A, B, 1)>>
+    /\ \E l \in Layouts, wr \in Writes :
+         LET A == <<Table(l, wr, 1, 1, 1)>>
+             B == <<InitDecl>>                       \* the initial array holds its logical values
+             D == <<OrigDto>>
+         IN /\ init' = [init EXCEPT !.layout = l, !.wr = wr]
+            /\ arrs' = A /\ bufs' = B /\ dtos' = D /\ cur' = 1 /\ snaps' = <<SnapOf(A, B, D, 1, "none")>>
     /\ phase' = "run" /\ UNCHANGED ops
 
+View(a) == [decl |-> a.decl, phys |-> bufs[a.buf]]
+MustSwap(a, fn) == \E i \in DOMAIN init.kinds : BOMustSwap(init.kinds, View(a), fn, i)
+Refused(a, fn, ip) == ip /\ ~a.w /\ MustSwap(a, fn)         \* numpy: "array to be byte-swapped is read-only"
+CanStep == phase = "run" /\ Len(ops) < MaxDepth
+Op(fn, ip, keep) == [fn |-> fn, inplace |-> ip, keep |-> keep]
+
 Conv(fn, ip, keep) ==
-    /\ phase = "run" /\ Len(ops) < MaxDepth
+    /\ CanStep /\ fn \in Fns
     /\ (InplaceFirst /\ Len(ops) < MaxDepth - 1) => ip
+    /\ ~Refused(arrs[cur], fn, ip)
     /\ LET a == arrs[cur]
-           v == [decl |-> a.decl, phys |-> bufs[a.buf]]
+           v == View(a)
            w == BOConvert(init.kinds, v, fn, keep)
-           A == IF ip THEN [arrs EXCEPT ![cur] = [decl |-> w.decl, buf |-> a.buf, lay |-> a.lay]]
-                      ELSE Append(arrs, [decl |-> w.decl, buf |-> Len(bufs) + 1, lay |-> "contig"])   \* a copy owns its buffer
+           \* dtype object of the result: the argument's own unless a swapped dtype is assigned
+           \* (dtype.newbyteorder() makes a new object every time)
+           retype == MustSwap(a, fn) /\ ~keep
+           key == <<a.decl, dtos[a.dto].names>>
+           hit == {d \in DOMAIN dtos : dtos[d].key = key}
+           d  == IF ~retype THEN a.dto ELSE IF CacheDtype /\ hit # {} THEN VSetMin(hit) ELSE Len(dtos) + 1
+           D  == IF d = Len(dtos) + 1 THEN Append(dtos, [names |-> dtos[a.dto].names, key |-> key]) ELSE dtos
+           A == IF ip THEN [arrs EXCEPT ![cur] = [a EXCEPT !.decl = w.decl, !.dto = d]]
+                      ELSE Append(arrs, [decl |-> w.decl, buf |-> Len(bufs) + 1, lay |-> "contig",     \* a copy owns its buffer,
+                                         lin |-> a.lin, dto |-> d, w |-> TRUE, shp |-> a.shp])         \* is writable
            B == IF ip THEN [bufs EXCEPT ![a.buf] = w.phys] ELSE Append(bufs, w.phys)
            c == IF ip THEN cur ELSE Len(arrs) + 1
-       IN /\ arrs' = A /\ bufs' = B /\ cur' = c
-          /\ snaps' = Append(snaps, SnapOf(A, B, c))
-          /\ ops' = Append(ops, [fn |-> fn, inplace |-> ip, keep |-> keep])
+       IN /\ arrs' = A /\ bufs' = B /\ dtos' = D /\ cur' = c
+          /\ snaps' = Append(snaps, SnapOf(A, B, D, c, "none"))
+          /\ ops' = Append(ops, Op(fn, ip, keep))
     /\ UNCHANGED <<phase, init>>
 
-ToNative  == phase = "run" /\ \E ip, k \in BOOLEAN : Conv("native", ip, k)
-ToBig     == phase = "run" /\ \E ip, k \in BOOLEAN : Conv("big", ip, k)
-ToLittle  == phase = "run" /\ \E ip, k \in BOOLEAN : Conv("little", ip, k)
-Swap      == phase = "run" /\ \E ip, k \in BOOLEAN : Conv("swap", ip, k)
-RecfileNativeInplace == phase = "run" /\ Conv("rnative", TRUE, FALSE)
+ToNative  == CanStep /\ \E ip, k \in BOOLEAN : Conv("native", ip, k)
+ToBig     == CanStep /\ \E ip, k \in BOOLEAN : Conv("big", ip, k)
+ToLittle  == CanStep /\ \E ip, k \in BOOLEAN : Conv("little", ip, k)
+Swap      == CanStep /\ \E ip, k \in BOOLEAN : Conv("swap", ip, k)
+RecfileNativeInplace == CanStep /\ Conv("rnative", TRUE, FALSE)
+
+\* the call is refused: nothing changes
+Reject ==
+    /\ CanStep
+    /\ \E fn \in Fns, keep \in BOOLEAN :
+         /\ Refused(arrs[cur], fn, TRUE)
+         /\ fn = "rnative" => ~keep
+         /\ snaps' = Append(snaps, SnapOf(arrs, bufs, dtos, cur, "rejected"))
+         /\ ops' = Append(ops, Op(fn, TRUE, keep))
+    /\ UNCHANGED <<phase, init, arrs, bufs, dtos, cur>>
+
+\* ---- the caller, between conversions -------------------------------------------------
+CallerStep(fn, A, B, D, c) ==
+    /\ arrs' = A /\ bufs' = B /\ dtos' = D /\ cur' = c
+    /\ snaps' = Append(snaps, SnapOf(A, B, D, c, "none"))
+    /\ ops' = Append(ops, Op(fn, FALSE, FALSE))
+    /\ UNCHANGED <<phase, init>>
+
+Fresh ==        \* another table of the same dtype (its own dtype object, its own buffer)
+    /\ CanStep /\ "fresh" \in CallerOps
+    /\ Cardinality({j \in DOMAIN arrs : arrs[j].lin = j}) < 3
+    /\ LET n == Len(arrs) + 1 IN
+       CallerStep("fresh", Append(arrs, Table(init.layout, init.wr, Len(bufs) + 1, Len(dtos) + 1, n)),
+                  Append(bufs, InitDecl), Append(dtos, OrigDto), n)
+
+MutNames ==     \* x.dtype.names = (...): renames the dtype OBJECT, for every array that holds it
+    /\ CanStep /\ "mut_names" \in CallerOps /\ ~init.plain
+    /\ dtos[arrs[cur].dto].names = "orig"
+    /\ CallerStep("mut_names", arrs, bufs, [dtos EXCEPT ![arrs[cur].dto].names = "ren"], cur)
+
+MutShape ==     \* x.shape = (...)
+    /\ CanStep /\ "mut_shape" \in CallerOps /\ arrs[cur].shp = "h"
+    /\ CallerStep("mut_shape", [arrs EXCEPT ![cur].shp = "h2"], bufs, dtos, cur)
+
+MutLock ==      \* x.setflags(write=False)
+    /\ CanStep /\ "mut_lock" \in CallerOps /\ arrs[cur].w
+    /\ CallerStep("mut_lock", [arrs EXCEPT ![cur].w = FALSE], bufs, dtos, cur)
 
 Next == ChooseKinds \/ ChooseSpell \/ ChooseLayout \/ ToNative \/ ToBig \/ ToLittle \/ Swap \/ RecfileNativeInplace
+        \/ Reject \/ Fresh \/ MutNames \/ MutShape \/ MutLock
 Spec == Init /\ [][Next]_vars
 
 \* ---- theorems about the specification, checked on every behaviour ---------------------
 N == Len(ops)
 Cur(k) == snaps[k].arrs[snaps[k].res]           \* current array in snapshot k (1 = initial)
+IsConv(k) == ops[k].fn \in BOFns
+ConvOK(k) == IsConv(k) /\ snaps[k + 1].err = "none"       \* a conversion that happened
 
 \* the constructive model is accepted by the clause-wise acceptor used on the real code
 SpecAccepted == N >= 1 =>
-    /\ BOStepFailing(init.kinds, snaps[N], ops[N], snaps[N + 1]) = {}
+    /\ BOAnyStepFailing(init.kinds, init.spell, snaps[N], ops[N], snaps[N + 1]) = {}
     /\ N >= 2 => BOPairFailing(init.kinds, snaps[N - 1], ops[N - 1], snaps[N], ops[N], snaps[N + 1]) = {}
 
 \* flags numpy shows for a layout (any witness will do: the acceptor must admit the layout's own flags)
-LayFlags(l, plain) == [cc |-> l \in {"contig", "slice", "zerod"} \/ (l = "recview" /\ ~plain), fc |-> l \in {"fortran", "zerod"},
-                       owns |-> l \in {"contig", "fortran"}, neg |-> l = "reversed",
-                       nd |-> IF l = "zerod" THEN 0 ELSE IF l = "fortran" THEN 2 ELSE 1]
+LayFlags(l, plain, wr) ==
+    [cc |-> l \in {"contig", "slice", "zerod"} \/ (l = "recview" /\ ~plain), fc |-> l \in {"fortran", "zerod"},
+     owns |-> l \in {"contig", "fortran"} /\ wr \in {"w", "ro"}, neg |-> l = "reversed",
+     nd |-> IF l = "zerod" THEN 0 ELSE IF l = "fortran" THEN 2 ELSE 1]
 InitAccepted == phase = "run" =>
-    BOInitFailing(init.kinds, init.spell, init.layout, init.plain, ("lay" :> LayFlags(init.layout, init.plain)) @@ snaps[1]) = {}
+    BOInitFailing(init.kinds, init.spell, init.layout, init.plain, init.wr,
+                  ("lay" :> LayFlags(init.layout, init.plain, init.wr)) @@ snaps[1]) = {}
 
 \* values: with the dtype updated every element keeps its (possibly already wrong) value;
-\* an array that held its logical values keeps them through any chain of such steps
-ValuePreservedThm == N >= 1 /\ ~ops[N].keep =>
+\* an array that held its logical values keeps them through any history of such steps
+ValuePreservedThm == N >= 1 /\ ConvOK(N) /\ ~ops[N].keep =>
     \A i \in BOMultis(init.kinds) :
         BOValueCorrect(init.kinds, Cur(N + 1), i) = BOValueCorrect(init.kinds, Cur(N), i)
 ValueCorrectThm == (phase = "run" /\ \A k \in 1..N : ~ops[k].keep) =>
-    \A i \in BOMultis(init.kinds) : BOValueCorrect(init.kinds, Cur(N + 1), i)
+    \A j \in DOMAIN snaps[N + 1].arrs : \A i \in BOMultis(init.kinds) : BOValueCorrect(init.kinds, snaps[N + 1].arrs[j], i)
 
-DeclaredThm == N >= 1 /\ ~ops[N].keep /\ ops[N].fn # "swap" =>
+DeclaredThm == N >= 1 /\ ConvOK(N) /\ ~ops[N].keep /\ ops[N].fn # "swap" =>
     \A i \in BOMultis(init.kinds) : Cur(N + 1).decl[i] = BORequested(ops[N].fn, "=")
 
-IdempotentThm == (N >= 2 /\ ops[N].fn # "swap" /\ BOSameFn(ops[N].fn, ops[N - 1].fn) /\ ~ops[N].keep /\ ~ops[N - 1].keep) =>
+IdempotentThm == (N >= 2 /\ ConvOK(N) /\ ConvOK(N - 1) /\ ops[N].fn # "swap" /\ BOSameFn(ops[N].fn, ops[N - 1].fn)
+                  /\ ~ops[N].keep /\ ~ops[N - 1].keep) =>
     /\ Cur(N + 1).decl = Cur(N).decl /\ Cur(N + 1).phys = Cur(N).phys
 
-SwapTwiceThm == (N >= 2 /\ ops[N].fn = "swap" /\ ops[N - 1].fn = "swap") =>
+SwapTwiceThm == (N >= 2 /\ ConvOK(N) /\ ConvOK(N - 1) /\ ops[N].fn = "swap" /\ ops[N - 1].fn = "swap") =>
     /\ Cur(N + 1).phys = Cur(N - 1).phys
     /\ (ops[N].keep = ops[N - 1].keep) => Cur(N + 1).decl = Cur(N - 1).decl
 
-AliasThm == N >= 1 =>
+AliasThm == N >= 1 /\ ConvOK(N) =>
     IF ops[N].inplace THEN snaps[N + 1].res = snaps[N].res /\ Len(snaps[N + 1].arrs) = Len(snaps[N].arrs)
     ELSE /\ snaps[N + 1].res = Len(snaps[N].arrs) + 1
          /\ Cur(N + 1).grp = snaps[N + 1].res
          /\ \A j \in 1..Len(snaps[N].arrs) : snaps[N + 1].arrs[j] = snaps[N].arrs[j]
+
+\* a refused call is a stutter step, and calls are refused only for in-place work on non-writable arrays
+RejectThm == N >= 1 /\ IsConv(N) /\ snaps[N + 1].err # "none" =>
+    /\ snaps[N + 1].arrs = snaps[N].arrs /\ snaps[N + 1].res = snaps[N].res /\ snaps[N + 1].rest = snaps[N].rest
+    /\ ops[N].inplace /\ ~Cur(N).w
+
+\* tables built separately never come to share a dtype object, so what the caller does to one array's
+\* metadata never shows on the results obtained from another table; and a conversion returns the field
+\* names and shape of its own argument
+LineageThm == phase = "run" =>
+    \A i, j \in DOMAIN arrs : arrs[i].lin # arrs[j].lin => arrs[i].dto # arrs[j].dto /\ arrs[i].buf # arrs[j].buf
+StructureThm == N >= 1 /\ ConvOK(N) => Cur(N + 1).sig = Cur(N).sig /\ Cur(N + 1).shp = Cur(N).shp
 
 UniformInv == phase = "run" => \A j \in DOMAIN snaps[N + 1].arrs : BOUniform(init.kinds, snaps[N + 1].arrs[j])
 
@@ -144,18 +236,20 @@ UntouchedThm == phase = "run" =>
 RestThm == phase = "run" => \A k \in 1..(N + 1) : snaps[k].rest = "intact"
 
 \* the code's mechanism (order detection from one decisive field, ndarray.byteswap, dtype assignment)
-\* refines the property: same result, same object identity, same dtype left on the argument
-MechRefines == N >= 1 =>
+\* refines the property: same result, same object identity, same dtype left on the argument, same refusals
+MechRefines == N >= 1 /\ IsConv(N) =>
     LET pre == snaps[N]
         lay == arrs[pre.res].lay          \* layouts never change once an object exists
-        m == BOMechStep(init.kinds, BOLayContiguous(lay, init.plain), Cur(N), ops[N], FixedDetect, NestedDetect, RetypeAlways)
-    IN /\ m.decl = Cur(N + 1).decl /\ m.phys = Cur(N + 1).phys
+        m == BOMechStep(init.kinds, BOLayContiguous(lay, init.plain), Cur(N).w, Cur(N), ops[N],
+                        FixedDetect, NestedDetect, RetypeAlways, SwapFirst)
+    IN /\ m.rejected = (snaps[N + 1].err # "none")
+       /\ m.decl = Cur(N + 1).decl /\ m.phys = Cur(N + 1).phys
        /\ m.same = (snaps[N + 1].res = pre.res)
        /\ m.argdecl = snaps[N + 1].arrs[pre.res].decl
 
 \* ---- export ------------------------------------------------------------------------------
 Export == (DoExport /\ phase = "run" /\ N = MaxDepth) =>
     PrintT(<<"CASE", ToJson([init |-> init, ops |-> ops,
-                             exp |-> [k \in 1..N |-> [decl |-> Cur(k + 1).decl, phys |-> Cur(k + 1).phys,
+                             exp |-> [k \in 1..N |-> [decl |-> Cur(k + 1).decl, phys |-> Cur(k + 1).phys, err |-> snaps[k + 1].err,
                                                       res |-> snaps[k + 1].res, grp |-> Cur(k + 1).grp]]])>>)
 =============================================================================
